@@ -24,7 +24,7 @@ pub mod streaming_kzg {
             (res is Ok) == skzg_relation(self, commitment, alpha_ref@, evaluation@, proof),   // name=streaming.verify.relation props=C10,C02,C14
 //@body
 //@destructure alpha_ref = &alpha
-//@after /let ep =/
+//@after start
         proof { reveal_with_fuel(dot, 3); broadcast use ax_add_zero, ax_add_comm; }
 //@end
     }
